@@ -52,6 +52,88 @@ pub fn range_related(key: &str) -> bool {
         || key.contains("constructor-accepts")
 }
 
+/// An integer handed to a type's serde visitors in another wire width (self-describing binary formats deliver
+/// integers by width: i64, u64, i32, u32). width code: 0 = i64, 1 = u64, 2 = i32, 3 = u32.
+pub struct Wire {
+    pub ty: crate::tok::Ty,
+    pub v: i64,
+    pub width: u8,
+}
+impl Case for Wire {
+    fn to_json(&self) -> serde_json::Value {
+        serde_json::json!({"kind": "wire-integer-any-type", "type": self.ty.name(), "v": self.v, "width": self.width})
+    }
+}
+pub fn check_wire(st: &mut Stats, c: &Wire) {
+    use crate::tok::{Ty, LV};
+    use serde::de::IntoDeserializer;
+    use serde::Deserialize;
+    use sqldatetime::{Date, IntervalDT, IntervalYM, OracleDate, Time, Timestamp};
+    type E = serde::de::value::Error;
+    macro_rules! de {
+        ($t:ty, $wrap:expr) => {
+            match c.width {
+                0 => <$t>::deserialize(IntoDeserializer::<E>::into_deserializer(c.v)).map($wrap),
+                1 => <$t>::deserialize(IntoDeserializer::<E>::into_deserializer(c.v as u64)).map($wrap),
+                2 => <$t>::deserialize(IntoDeserializer::<E>::into_deserializer(c.v as i32)).map($wrap),
+                _ => <$t>::deserialize(IntoDeserializer::<E>::into_deserializer(c.v as u32)).map($wrap),
+            }
+        };
+    }
+    st.op(Op::S_bin_de);
+    let r: Result<LV, E> = match c.ty {
+        Ty::Date => de!(Date, LV::Date),
+        Ty::Time => de!(Time, LV::Time),
+        Ty::Ts => de!(Timestamp, LV::Ts),
+        Ty::Ora => de!(OracleDate, LV::Ora),
+        Ty::YM => de!(IntervalYM, LV::YM),
+        Ty::DT => de!(IntervalDT, LV::DT),
+    };
+    let denoted: i128 = match c.width {
+        0 => c.v as i128,
+        1 => c.v as u64 as i128,
+        2 => c.v as i32 as i128,
+        _ => c.v as u32 as i128,
+    };
+    if let Ok(lv) = r {
+        crate::props::c05::obs_lv(st, Op::S_bin_de, &lv);
+        // a count the type cannot hold must be refused, "never returned as a wrapped, clamped or otherwise invalid value"
+        if lv.raw() as i128 != denoted {
+            st.fail("range/wire-integer/out-of-range-count-returned-as-a-wrapped-value", format!("{} from the integer {} (width code {}): got raw {} = {}", c.ty.name(), denoted, c.width, lv.raw(), lv.to_v().show()));
+        }
+    }
+}
+
 pub fn run(ctx: &Ctx, st: &mut Stats) {
     compose(ctx, st, &range_related);
+    // own stratum: raw counts arriving in other integer widths
+    let n = ctx.tier.pick(600, 600_000, 6_000_000);
+    ctx.par(st, "C02: raw counts as 64/32-bit signed/unsigned wire integers through the serde visitors, all six types", false, 0, n, |st, i, rng| {
+        use crate::tok::ALL_TY;
+        let ty = ALL_TY[(i % 6) as usize];
+        let lo32 = rng.next() as i32 as i64;
+        let v = match rng.below(6) {
+            0 => rng.next() as i64,
+            1 => (rng.next() as i64) >> rng.below(40),
+            2 => ((rng.next() as i32 as i64) << 32).wrapping_add(rng.range_i64(MIN_DAY as i64, MAX_DAY as i64)),
+            3 => i64::MIN.wrapping_add(rng.range_i64(-DT_LIM, DT_LIM)),
+            4 => *rng.pick(&[i64::MIN, i64::MAX, -1, 0, 1, u32::MAX as i64, u32::MAX as i64 + 1, i32::MIN as i64, -5]),
+            _ => lo32,
+        };
+        let width = (i / 6 % 4) as u8;
+        st.eval_h(mix(v as u64, ty as u64 * 4 + width as u64), &Wire { ty, v, width }, check_wire);
+    });
+}
+
+pub fn replay_wire(v: &serde_json::Value, st: &mut Stats) -> bool {
+    if jstr(v, "kind") != "wire-integer-any-type" {
+        return false;
+    }
+    match crate::tok::Ty::from_name(&jstr(v, "type")) {
+        Some(ty) => {
+            st.eval(&Wire { ty, v: ji64(v, "v"), width: ji64(v, "width") as u8 }, check_wire);
+            true
+        }
+        None => false,
+    }
 }
